@@ -277,6 +277,9 @@ def run(repo, tier):
         res.add(Finding('SPEC', vr.fullname, 'radii copy', vr.loc,
                         'ProfileBase._validate_radii may return the caller\'s `radii` array itself: the lazily evaluated radius, '
                         'apertures and photometry then follow later edits of that array', {}))
+    # the property goes through BoundingBox.from_float / get_overlap_slices: C01's rules for them are its rules too
+    from .C01 import bbox_rules as _c01_bbox_rules
+    _c01_bbox_rules(repo, res)
     from .common import run_generic_pack
     run_generic_pack(repo, res, PROP, ())
     return res
